@@ -517,7 +517,30 @@ def check_copies(ctx, case):
     ctx.note_case(len(script) >= 2, ["copies:" + kind])
 
 
-CHECKS = {"history": check_history, "fft": check_fft, "find_notes": check_find_notes, "args": check_args, "siblings": check_siblings, "copies": check_copies}
+def check_returned_objects(ctx, case):
+    """objects handed out by registries / containers belong to the caller: changing them does not change later answers"""
+    from mingus.extra import tunings
+    ti, string, script = case
+    ts = sorted(tunings.get_tunings(), key=lambda t: (t.instrument, t.description))
+    t = ts[ti % len(ts)]
+    n = len(t.tuning)
+    before = [[(x.name, x.octave) for x in (s_ if isinstance(s_, list) else [s_])] for s_ in t.tuning]
+    first = [(lambda r: (r.name, r.octave))(t.get_Note(s_, 0)) for s_ in range(n)]
+    for k in script:
+        r = t.get_Note(string % n, [0, 0, 5, 12][k % 4])
+        [r.octave_up, r.augment, lambda: r.transpose("3"), lambda: r.from_int(1), r.diminish][k % 5]()
+        nc = t.frets_to_NoteContainer([0 if (i + k) % 2 else None for i in range(n)])
+        nc.augment()
+    after = [[(x.name, x.octave) for x in (s_ if isinstance(s_, list) else [s_])] for s_ in t.tuning]
+    again = [(lambda r: (r.name, r.octave))(t.get_Note(s_, 0)) for s_ in range(n)]
+    ctx.check(after == before and again == first, "returned-object/tuning-changed", lambda: "%s / %s: strings %r -> %r" % (t.instrument, t.description, before, after))
+    t2 = tunings.get_tuning(t.instrument, t.description)
+    ctx.check(t2 is None or [[(x.name, x.octave) for x in (s_ if isinstance(s_, list) else [s_])] for s_ in t2.tuning] == before or t2 is not t,
+              "returned-object/registry-changed", "")
+    ctx.note_case(len(script) >= 2, ["returned:tuning"])
+
+
+CHECKS = {"returned": check_returned_objects, "history": check_history, "fft": check_fft, "find_notes": check_find_notes, "args": check_args, "siblings": check_siblings, "copies": check_copies}
 
 
 # ---- generators ----------------------------------------------------------------------------------------
@@ -575,6 +598,8 @@ def sub_instances(ctx, shard, n):
     cps = st.tuples(st.sampled_from(["note", "nc"]), st.lists(note, min_size=1, max_size=4, unique_by=lambda x: T.pitch(x[0], x[1])),
                     st.lists(st.integers(0, 40), min_size=1, max_size=6), st.booleans()).map(list)
     ctx.given("copies", check_copies, cps, 400 if ctx.quick else 5000)
+    ret = st.tuples(st.integers(0, 75), st.integers(0, 11), st.lists(st.integers(0, 40), min_size=1, max_size=5)).map(list)
+    ctx.given("returned", check_returned_objects, ret, 150 if ctx.quick else 2000)
 
 
 SUBS = [
